@@ -4,7 +4,7 @@ import vlib, squidctl, peers, escen
 from vlib import VERIF
 
 SPEC = os.path.join(VERIF, 'spec', 'proxy')
-STUB = os.path.join(VERIF, 'e2e', 'helper_stub.py')
+STUB = squidctl.stage(os.path.join(VERIF, 'e2e', 'helper_stub.py'))
 
 
 def plans_from_tlc(scens):
